@@ -115,6 +115,37 @@ def build_coherence(chk, name, model, enc, pos0):
                       dict(reproduced=True, observed=dict(node=k, cached=have, recomputed=want, others=[b[0] for b in bad[1:6]]), note="concrete comparison on the built model"))
 
 
+def inplace_assignment(chk):
+    """concrete history: a mutable (numpy) value is edited in place and assigned back -- the assignment is an assignment like any other,
+    the totals must be those of the new values"""
+    import liesel.model as lsl
+    import tensorflow_probability.substrates.jax.distributions as tfd
+
+    def build(bval):
+        beta = lsl.param(np.array(bval, dtype=np.float32), lsl.Dist(tfd.Normal, loc=0.0, scale=2.0), name="beta")
+        mu = lsl.Var(lsl.Calc(lambda b: jnp.asarray(M.X3) @ b, beta), name="mu")
+        y = lsl.obs(jnp.asarray(M.Y3), lsl.Dist(tfd.Normal, loc=mu, scale=1.0), name="y")
+        return lsl.GraphBuilder().add(y).build_model()
+
+    def run():
+        m = build([0.1, -0.2])
+        v = m.vars["beta"].value
+        if not isinstance(v, np.ndarray):
+            return None                       # values are not stored as mutable arrays on this tree: nothing to check
+        v[...] = np.array([1.5, 0.7], dtype=np.float32)
+        m.vars["beta"].value = v
+        ref = build([1.5, 0.7])
+        return {k: (float(np.asarray(getattr(m, k))), float(np.asarray(getattr(ref, k)))) for k in ("log_prob", "log_lik", "log_prior")}
+    r = chk.guarded("inplace-assignment", "numpy value edited in place and assigned back", run)
+    if r:
+        bad = {k: v for k, v in r.items() if abs(v[0] - v[1]) > 1e-4 * (1 + abs(v[1]))}
+        if bad:
+            chk.violation("inplace-assignment", "after `v = var.value; v[...] = new; var.value = v` the model's totals are not those of the new values: "
+                          + ", ".join(f"{k} = {a:.4f} (from scratch {b:.4f})" for k, (a, b) in bad.items()),
+                          dict(reproduced=True, inputs=dict(old=[0.1, -0.2], new=[1.5, 0.7]), observed={k: dict(model=a, from_scratch=b) for k, (a, b) in bad.items()}, note="concrete history on the real code"))
+    chk.enumerated.append("history: numpy value edited in place and assigned back")
+
+
 def main():
     chk = Check("C02")
     names = list(M.FAMILY) if chk.tier == "thorough" else [n for n in M.FAMILY if n not in ("DistRegBuilder(np+p smooth)",)] + ["DistRegBuilder(np+p smooth)"]
@@ -127,6 +158,7 @@ def main():
         obs += obligations(name, model, enc)
         build_coherence(chk, name, model, enc, pos0)
         chk.validated_points += enc.validate(chk.rng, npoints=1)
+    inplace_assignment(chk)
     # per-observation vs summed storage: same totals
     e1, e2 = encs["regression(transformed scale)"][1], encs["regression(per_obs=False)"][1]
 
